@@ -665,3 +665,161 @@ Theorem shrunk_body_reads_proved bs : (0 < bs)%nat ->
   fst (sr_reads bs (v2_reader (file_body bs empty_lru_session)) [16%nat; 1%nat]) =
   [OData empty_lru_session; OEof []].
 Proof. intros Hbs. rewrite read_write_roundtrip_proved by exact Hbs. reflexivity. Qed.
+
+(* ------------------------------------------------------------------ *)
+(* the streaming validator: chunking independence and acceptance        *)
+
+Lemma vv_check_fuel bs : forall f1 f2 l, (length l < f1)%nat -> (length l < f2)%nat ->
+  vv_check f1 bs l = vv_check f2 bs l.
+Proof.
+  induction f1 as [|f1 IH]; intros f2 l H1 H2; [lia|].
+  destruct f2 as [|f2]; [lia|]. cbn [vv_check].
+  destruct (Nat.ltb_spec (csz + bs) (length l)) as [Hlt|Hge]; [|reflexivity].
+  f_equal. apply IH; rewrite skipn_length; rewrite csz_eq in *; lia.
+Qed.
+
+Lemma vv_check_cons bs B rest f : length B = (csz + bs)%nat -> (length rest < f)%nat ->
+  vv_check (S f) bs (B ++ rest) = validate_block B && vv_check f bs rest.
+Proof.
+  intros HB Hf. cbn [vv_check]. rewrite app_length, HB.
+  destruct rest as [|x rest].
+  - cbn [length]. rewrite Nat.add_0_r, Nat.ltb_irrefl, app_nil_r.
+    rewrite csz_eq. cbn [Nat.add Nat.eqb orb].
+    destruct f as [|f]; [cbn in Hf; lia|]. cbn [vv_check length].
+    rewrite csz_eq. cbn [Nat.add Nat.ltb Nat.leb Nat.eqb orb]. rewrite andb_true_r. reflexivity.
+  - destruct (Nat.ltb_spec (csz + bs) (csz + bs + length (x :: rest))) as [_|H]; [|cbn [length] in H; lia].
+    rewrite <- HB, firstn_app, Nat.sub_diag, firstn_all, firstn_O, app_nil_r.
+    rewrite skipn_app, Nat.sub_diag, skipn_all, skipn_O. reflexivity.
+Qed.
+
+(* one step of AddChunk's loop does not change what Validate will say later *)
+Lemma vv_validate_drain_step bs B R Z T : (12 <= bs)%nat ->
+  length B = (csz + bs)%nat -> (csz + bs <= length R)%nat ->
+  vv_validate bs (mkV2V (B ++ R ++ Z) T) = validate_block B && vv_validate bs (mkV2V (R ++ Z) T).
+Proof.
+  intros Hbs HB HR. unfold vv_validate. cbn [vv_block vv_total].
+  rewrite !app_length, HB, tsz_eq, csz_eq in *.
+  destruct (Nat.ltb_spec (4 + bs + (length R + length Z)) 16) as [|_]; [lia|].
+  destruct (Nat.ltb_spec (length R + length Z) 16) as [|_]; [lia|].
+  set (n' := (length R + length Z - 16)%nat).
+  replace (4 + bs + (length R + length Z) - 16)%nat with (length B + n')%nat by (unfold n'; lia).
+  rewrite (skipn_app (length B + n')), (skipn_all2 B) by lia. cbn [app].
+  replace (length B + n' - length B)%nat with n' by lia.
+  destruct (bytes_eqb (skipn 8 (skipn n' (R ++ Z))) block_magic); cbn [negb];
+    [|rewrite andb_false_r; reflexivity].
+  destruct (le_dec (firstn 8 (skipn n' (R ++ Z))) =? (T + 2 ^ 64 - tail_size) mod 2 ^ 64); cbn [negb];
+    [|rewrite andb_false_r; reflexivity].
+  rewrite firstn_app, (firstn_all2 B) by lia.
+  replace (length B + n' - length B)%nat with n' by lia.
+  assert (Hl : length (firstn n' (R ++ Z)) = n').
+  { rewrite firstn_length, app_length. unfold n'. lia. }
+  rewrite app_length, Hl.
+  change (S (length B + n')) with (S (length B + n')).
+  rewrite (vv_check_cons bs B (firstn n' (R ++ Z)) (length B + n')) by (rewrite ?csz_eq; lia).
+  f_equal. apply vv_check_fuel; lia.
+Qed.
+
+Lemma vv_drain_spec bs : (12 <= bs)%nat -> forall fuel blk Z T,
+  let '(blk', ok) := vv_drain fuel bs blk in
+  if ok then vv_validate bs (mkV2V (blk' ++ Z) T) = vv_validate bs (mkV2V (blk ++ Z) T)
+  else vv_validate bs (mkV2V (blk ++ Z) T) = false.
+Proof.
+  intros Hbs. induction fuel as [|fuel IH]; intros blk Z T; [reflexivity|].
+  cbn [vv_drain].
+  destruct (Nat.leb_spec (csz + bs) (length (skipn (csz + bs) blk))) as [Hle|Hgt]; [|reflexivity].
+  assert (Hlen : (csz + bs <= length blk)%nat).
+  { rewrite skipn_length in Hle. rewrite csz_eq in *. lia. }
+  assert (HB : length (firstn (csz + bs) blk) = (csz + bs)%nat) by (rewrite firstn_length; lia).
+  pose proof (vv_validate_drain_step bs _ _ Z T Hbs HB Hle) as Hstep.
+  rewrite app_assoc, firstn_skipn in Hstep.
+  destruct (validate_block (firstn (csz + bs) blk)) eqn:Hv.
+  - specialize (IH (skipn (csz + bs) blk) Z T).
+    destruct (vv_drain fuel bs (skipn (csz + bs) blk)) as [blk' ok].
+    rewrite Hstep. cbn [andb]. exact IH.
+  - rewrite Hstep. reflexivity.
+Qed.
+
+(* for EVERY chunking: running the validator over the chunks = Validate on the whole *)
+Theorem vv_run_chunking_independent bs chunks : (12 <= bs)%nat -> forall Y T,
+  vv_run bs (mkV2V Y T) chunks =
+  vv_validate bs (mkV2V (Y ++ concat chunks) (T + nlen (concat chunks))).
+Proof.
+  intros Hbs. induction chunks as [|c chunks IH]; intros Y T.
+  - cbn [vv_run concat]. rewrite app_nil_r. unfold nlen. cbn [length]. rewrite N.add_0_r. reflexivity.
+  - cbn [vv_run concat]. unfold vv_add. cbn [vv_block vv_total].
+    pose proof (vv_drain_spec bs Hbs (length (Y ++ c)) (Y ++ c) (concat chunks)
+                  (T + nlen c + nlen (concat chunks))) as Hd.
+    destruct (vv_drain (length (Y ++ c)) bs (Y ++ c)) as [blk' ok].
+    rewrite nlen_app, N.add_assoc, app_assoc.
+    destruct ok.
+    + rewrite IH. exact Hd.
+    + symmetry. exact Hd.
+Qed.
+
+Lemma vv_check_enc_blocks bs F : Forall (fun b => length b = bs) F -> (0 < bs)%nat ->
+  forall r, (length r < bs)%nat -> forall f, (length (enc_blocks (F ++ last_block r)) < f)%nat ->
+  vv_check f bs (enc_blocks (F ++ last_block r)) = true.
+Proof.
+  intros HF Hbs. induction HF as [|b F Hb HF IH]; intros r Hr f Hf.
+  - cbn [app]. destruct r as [|x r].
+    + destruct f; [cbn in Hf; lia|]. reflexivity.
+    + cbn [last_block] in *. rewrite enc_blocks_one in *. fold (enc_block (x :: r)) in *.
+      destruct f; [lia|]. cbn [vv_check]. rewrite enc_block_length in *. rewrite csz_eq.
+      destruct (Nat.ltb_spec (4 + bs) (length (x :: r) + 4)) as [H|_]; [cbn [length] in *; lia|].
+      rewrite validate_block_enc by (cbn [length]; lia). apply orb_true_r.
+  - cbn [app] in *. unfold enc_blocks in *. cbn [map concat] in *. fold (enc_blocks (F ++ last_block r)) in *.
+    rewrite app_length, enc_block_length in Hf.
+    destruct f; [lia|].
+    rewrite vv_check_cons; [|rewrite enc_block_length, csz_eq; lia|unfold enc_blocks in *; lia].
+    rewrite validate_block_enc by lia. cbn [andb]. apply IH; [exact Hr|unfold enc_blocks in *; lia].
+Qed.
+
+Lemma vv_validate_file_body bs p : (0 < bs)%nat -> nlen (file_body bs p) < 2 ^ 64 ->
+  vv_validate bs (mkV2V (file_body bs p) (nlen (file_body bs p))) = true.
+Proof.
+  intros Hbs Hlt. destruct (split_blocks bs p Hbs) as (F & r & HF & Hr & Hc).
+  unfold vv_validate. cbn [vv_block vv_total]. unfold file_body in *.
+  set (E := enc_blocks (blocks bs p)) in *.
+  rewrite app_length, file_tail_length, tsz_eq.
+  destruct (Nat.ltb_spec (length E + 16) 16) as [|_]; [lia|].
+  replace (length E + 16 - 16)%nat with (length E) by lia.
+  assert (Hsk : skipn (length E) (E ++ file_tail (nlen E)) = file_tail (nlen E)).
+  { rewrite skipn_app, Nat.sub_diag, skipn_all. reflexivity. }
+  assert (Hfi : firstn (length E) (E ++ file_tail (nlen E)) = E).
+  { rewrite firstn_app, Nat.sub_diag, firstn_all, firstn_O, app_nil_r. reflexivity. }
+  rewrite Hsk, Hfi. unfold file_tail.
+  assert (H8 : length (le 8 (nlen E)) = 8%nat) by apply le_length.
+  rewrite <- H8 at 1. rewrite skipn_app, Nat.sub_diag, skipn_all, skipn_O. cbn [app].
+  rewrite bytes_eqb_refl. cbn [negb].
+  rewrite <- H8 at 1. rewrite firstn_app, Nat.sub_diag, firstn_all, firstn_O, app_nil_r.
+  rewrite nlen_app in *. unfold nlen at 2 in Hlt. unfold nlen at 3.
+  rewrite app_length, le_length, magic_length in *. rewrite tail_size_eq.
+  rewrite le_dec_le by (change (256 ^ N.of_nat 8) with (2 ^ 64); lia).
+  replace ((nlen E + N.of_nat (8 + 8) + 2 ^ 64 - 16) mod 2 ^ 64) with (nlen E).
+  2:{ replace (nlen E + N.of_nat (8 + 8) + 2 ^ 64 - 16) with (nlen E + 1 * 2 ^ 64) by lia.
+      rewrite N.mod_add by lia. symmetry. apply N.mod_small. lia. }
+  rewrite N.eqb_refl. cbn [negb].
+  unfold E. rewrite <- Hc. rewrite blocks_spec by assumption.
+  apply vv_check_enc_blocks; auto.
+Qed.
+
+(* the validator accepts exactly... at least everything the writer produces, for EVERY
+   way of cutting the block region into chunks *)
+Theorem validator_accepts_writer_output_proved bs p chunks : (12 <= bs)%nat ->
+  nlen (file_body bs p) < 2 ^ 64 -> concat chunks = file_body bs p ->
+  vv_run bs (mkV2V [] 0) chunks = true.
+Proof.
+  intros Hbs Hlt Hc. rewrite vv_run_chunking_independent by exact Hbs.
+  cbn [app]. rewrite N.add_0_l, Hc. apply vv_validate_file_body; [lia|exact Hlt].
+Qed.
+
+(* SnapshotValidator once the header chunk selected the v2 validator: chunk ids > 0 *)
+Theorem sv_run_v2_proved bs chunks : forall s id, id <> 0 ->
+  sv_run bs (V2 s) id chunks = if vv_run bs s chunks then Accept else Reject.
+Proof.
+  induction chunks as [|c chunks IH]; intros s id Hid.
+  - reflexivity.
+  - cbn [sv_run vv_run]. unfold sv_add. destruct (N.eqb_spec id 0) as [|_]; [contradiction|].
+    destruct (vv_add bs s c) as [s' ok]. destruct ok; [|reflexivity].
+    apply IH. lia.
+Qed.
